@@ -59,8 +59,8 @@ OBLIGATIONS = [
              "position == file position; fetched-bytes accounting and resumes counter",
         outside=_OUT_ENC),
     chx("interrupted_state", "C44_h", "h_interrupted_state", timeout=T,
-        cases={"quick": [{"j": j, "nf": nf, "ns": ns, "_label": "cut-after-%d,%d-chunk-file,%d-subchunks" % (j, nf, ns)}
-                         for nf in (1, 2, 3) for j in range(0, nf) for ns in (1, 2)],
+        cases={"quick": [{"j": j, "nf": nf, "ns": 2, "_label": "cut-after-%d,%d-chunk-file,2-subchunks" % (j, nf)}
+                         for nf in (1, 2, 3) for j in range(0, nf)],
                "thorough": [{"j": j, "nf": nf, "ns": ns, "_label": "cut-after-%d,%d-chunk-file,%d-subchunks" % (j, nf, ns)}
                             for nf in (1, 2, 3, 4) for j in range(0, nf) for ns in (1, 2, 3)]},
         desc="whole flow Uploader.upload -> AssistedUploader -> Helper.remote_upload_chk -> CHKUploadHelper.remote_upload -> fetch, connection lost after the client "
@@ -130,8 +130,8 @@ OBLIGATIONS = [
                 "crypttext_hash against its own ciphertext: integrity of the UEB-hash slot rests on the helper (the property does not state a check either); "
                 "pre-1.3.0 helper result conversion"),
     chx("two_clients", "C44_h", "h_two_clients", timeout=T,
-        cases={"quick": [{"nf": nf, "adie": a, "tmin": lo, "tmax": hi, "late": 0, "_label": _tc_label(nf, a, lo, hi)}
-                         for (nf, deaths) in ((1, (-1, 0, 1, 2, 3)), (2, (-1, 2))) for a in deaths for (lo, hi) in ((0, 3), (4, 6 + nf))],
+        cases={"quick": [{"nf": 1, "adie": a, "tmin": 0, "tmax": 7, "late": 0, "_label": _tc_label(1, a, 0, 7)} for a in (-1, 0, 1, 2)]
+                        + [{"nf": 2, "adie": -1, "tmin": lo, "tmax": hi, "late": 0, "_label": _tc_label(2, -1, lo, hi)} for (lo, hi) in ((0, 3), (4, 8))],
                "thorough": [{"nf": nf, "adie": a, "tmin": lo, "tmax": hi, "late": 0, "_label": _tc_label(nf, a, lo, hi)}
                             for nf in (1, 2, 3) for a in range(-1, 3 + nf) for (lo, hi) in ((0, 3), (4, 6), (7, 6 + nf))]},
         desc="message schedules: every remote call queued and delivered FIFO one per step; client B starts uploading the same file before any delivery step; client A's "
